@@ -969,3 +969,84 @@ def memoised_results_not_mutated(ctx, clause, modules=('array', 'raggedarray', '
                    f'no result of a memoised function of {mn}.py is changed in place ({len(memo)} memoised callable(s): '
                    f'{sorted(memo)}; classifier verified on its embedded positive example)')
     return nmemo
+
+
+# ---------------------------------------------------------------------------------------------------------------
+# No control-flow escape from a `finally` block (round 5, seeded change C10-15): `return` (or `break`/`continue` out
+# of the block) inside `finally` discards the exception in flight.  In the opener's clean-up this turns every failure
+# inside the context — a rejected chunk, a raising iterable — into a normal return.  Expected count: zero; the
+# classifier is verified on an embedded positive example.
+
+_FINALLY_EXAMPLE = '''
+def opener(x):
+    try:
+        yield x
+    finally:
+        if x is None:
+            return
+        x.close()
+
+def fine(x):
+    try:
+        return x.read()
+    finally:
+        for y in x.parts:
+            if y is None:
+                continue
+            y.close()
+        x.close()
+'''
+
+
+def finally_escapes(fnode):
+    """`return` statements, and `break`/`continue` that leave the block, inside a finalbody of fnode."""
+    out = []
+
+    def scan(stmts, loop_depth):
+        for st in stmts:
+            if isinstance(st, (ast.FunctionDef, ast.AsyncFunctionDef, ast.ClassDef, ast.Lambda)):
+                continue
+            if isinstance(st, ast.Return):
+                out.append(st)
+            elif isinstance(st, (ast.Break, ast.Continue)) and loop_depth == 0:
+                out.append(st)
+            for field in ('body', 'orelse', 'finalbody', 'handlers'):
+                sub = getattr(st, field, None)
+                if not sub:
+                    continue
+                inner = isinstance(st, (ast.For, ast.While, ast.AsyncFor)) and field == 'body'
+                for x in sub:
+                    if isinstance(x, ast.ExceptHandler):
+                        scan(x.body, loop_depth)
+                    else:
+                        scan([x], loop_depth + (1 if inner else 0))
+    for n in own_nodes(fnode):
+        if isinstance(n, ast.Try) and n.finalbody:
+            scan(n.finalbody, 0)
+    return out
+
+
+def no_escape_from_finally(ctx, clause, modules=('array', 'raggedarray', 'datadir', 'metadata', 'utils')):
+    ex = ast.parse(_FINALLY_EXAMPLE)
+    v = {f.name: len(finally_escapes(f)) for f in ex.body if isinstance(f, ast.FunctionDef)}
+    if v != {'opener': 1, 'fine': 0}:
+        raise AnalysisError(f'finally-escape classifier fails its embedded example: {v}')
+    nfin = 0
+    hits = 0
+    for f in ctx.repo.all_funcs():
+        if f.module.name not in modules:
+            continue
+        nfin += sum(1 for n in own_nodes(f.node) if isinstance(n, ast.Try) and n.finalbody)
+        for st in finally_escapes(f.node):
+            hits += 1
+            ctx.bad('R-RECOVER', clause, f, st, f'finally-escape::{f.qualname}',
+                    f'{f.qualname}: no return/break/continue leaves a `finally` block',
+                    detail=f'`{norm(st)}` inside `finally` discards the exception in flight: a failure raised inside the '
+                           f'protected region (for the opener: anything that fails while the array is open) is swallowed '
+                           f'and the operation returns normally')
+    if not hits:
+        ctx.ok('R-RECOVER', clause, 'darr', None, 'finally-escape',
+               f'no return/break/continue leaves a `finally` block ({nfin} finally block(s) in {list(modules)}; '
+               f'classifier verified on its embedded positive example)')
+    ctx.floor(f'finally blocks scanned', nfin, 1)
+    return nfin
